@@ -40,7 +40,8 @@ MAXMODS = 6
 GRACE = 20.0            # seconds a daemon may take to stop by itself before it is stopped from outside
 GRACE_AFTER_ANOMALY = 2.0
 MAX_ANOMALIES = 12      # per worker: after that many externally stopped daemons the worker gives up
-REAL_BUDGET_S = 330    # thorough: wall-clock budget for the daemon runs
+REAL_BUDGET_S = 540    # thorough: wall-clock budget for the daemon runs (cuts the 4-module enumeration only)
+MIN_TAIL_S = 60        # ... of which at least this much for the 4-module enumeration
 CHUNK = 20000           # trace lines per TLC validation run
 INVARIANT_TO_CONJUNCT = lambda name: name.rstrip("_")
 
@@ -380,11 +381,16 @@ def run_one(daemon, libroot, wdir, c, grace):
 
 
 def _worker(args):
-    wid, daemon, libroot, scratch, cases = args
+    wid, daemon, libroot, scratch, cases, deadline = args
+    if deadline is not None and time.time() > deadline:
+        return ["not-run"] * len(cases)
     wdir = os.path.join(scratch, "run", "w%d-%d" % (wid, os.getpid()))
     os.makedirs(wdir, exist_ok=True)
     out, anomalies, grace = [], 0, GRACE
     for c in cases:
+        if deadline is not None and time.time() > deadline:
+            out.append("not-run")
+            continue
         if anomalies >= MAX_ANOMALIES:
             out.append(None)
             continue
@@ -400,13 +406,16 @@ def _worker(args):
 def run_real(ctx, cases, libroot, procs=16, budget_s=None):
     """Run every case on the real daemon (one process per case), `procs` at a time.  With a
     budget, cases not started when it is used up are returned as "not-run" (the caller orders
-    the cases so that those are the tail of the exhaustive 4-module enumeration)."""
+    the cases so that those belong to the tail of the exhaustive 4-module enumeration, and checks
+    that).  The workers themselves stop starting daemons at the deadline, so that the pool always
+    drains and is closed normally (terminating a pool with queued jobs can hang)."""
     daemon = ctx.build.daemon
     os.makedirs(os.path.join(ctx.scratch, "run"), exist_ok=True)
     per = max(1, min(250, (len(cases) + procs * 4 - 1) // (procs * 4)))
-    jobs = [(i, daemon, libroot, ctx.scratch, cases[s:s + per]) for i, s in enumerate(range(0, len(cases), per))]
+    deadline = None if budget_s is None else time.time() + budget_s
+    jobs = [(i, daemon, libroot, ctx.scratch, [{k: c[k] for k in CASE_FIELDS} for c in cases[s:s + per]], deadline)
+            for i, s in enumerate(range(0, len(cases), per))]
     res = []
-    t0 = time.time()
     if len(cases) <= 4:
         for j in jobs:
             res.extend(_worker(j))
@@ -415,12 +424,14 @@ def run_real(ctx, cases, libroot, procs=16, budget_s=None):
         try:
             for part in pool.imap(_worker, jobs):
                 res.extend(part)
-                if budget_s is not None and time.time() - t0 > budget_s:
-                    break
-        finally:
+            pool.close()
+        except BaseException:
             pool.terminate()
+            raise
+        finally:
             pool.join()
-    res.extend(["not-run"] * (len(cases) - len(res)))
+    if len(res) != len(cases):
+        raise core.MachineryError("daemon runs: %d results for %d cases" % (len(res), len(cases)))
     return res
 
 
@@ -730,7 +741,9 @@ def run(ctx):
     tail.sort(key=lambda c: c["class"] != "good")     # acyclic 4-module cases first (class computed by TLC)
     ordered = head + tail
     t1 = time.time()
-    res = run_real(ctx, ordered, libroot, budget_s=None if quick else REAL_BUDGET_S)
+    res = run_real(ctx, head, libroot)
+    if tail:
+        res += run_real(ctx, tail, libroot, budget_s=max(MIN_TAIL_S, REAL_BUDGET_S - (time.time() - t1)))
     t_real = time.time() - t1
     lines, idx_case, skipped, external, notrun = [], [], 0, 0, 0
     for c, r in zip(ordered, res):
@@ -744,8 +757,8 @@ def run(ctx):
         external += 1 if ext else 0
         lines.append(line)
         idx_case.append((c, err))
-    if notrun > len(tail):
-        raise core.MachineryError("time budget for daemon runs used up before the mandatory cases were run")
+    if any(r == "not-run" for r in res[:len(head)]):
+        raise core.MachineryError("a mandatory case was not run")
     ctx.cov["daemon_runs"] = len(lines)
     ctx.cov["daemon_runs_per_s"] = round(len(lines) / max(t_real, 1e-3))
     ctx.cov["daemons_stopped_from_outside"] = external
@@ -755,8 +768,8 @@ def run(ctx):
         ctx.cov["enum4_cases_run_on_daemon"] = len(tail) - notrun
         if notrun:
             ctx.note("busy machine: %d of the %d enumerated 4-module cases were run on the real daemon within "
-                     "%ds (all acyclic ones first, then a random subset, seed %d); all of them were model-checked"
-                     % (len(tail) - notrun, len(tail), REAL_BUDGET_S, ctx.seed))
+                     "the budget of %ds for all daemon runs (all acyclic ones first, then a random subset, seed %d); "
+                     "all of them were model-checked" % (len(tail) - notrun, len(tail), REAL_BUDGET_S, ctx.seed))
 
     # ---- 3. oracle -----------------------------------------------------------------------------
     t2 = time.time()
